@@ -21,6 +21,15 @@ type SpecTracer struct {
 	snapG  map[[2]uint64][]sent
 	last   map[uint64]absNode
 	nmsgs  map[uint64]int
+	// a candidacy whose vote request has not left the node yet: where its `campaign` line stands, and its term.
+	// Spec.sendReqVote is inserted right after that line when (and only if) a MsgVote of that term is handed to
+	// the network; a candidate that crashes first never sent it.
+	unsent map[uint64][]*unsentReq
+}
+
+type unsentReq struct {
+	pos  int // index in Lines just after the campaign line
+	term uint64
 }
 
 type sent struct{ term, val uint64 }
@@ -35,7 +44,7 @@ type absNode struct {
 
 func newSpecTracer(c *Cluster) *SpecTracer {
 	t := &SpecTracer{c: c, ghost: map[uint64][]sent{}, dghost: map[uint64][]sent{}, snapG: map[[2]uint64][]sent{},
-		last: map[uint64]absNode{}, nmsgs: map[uint64]int{}}
+		last: map[uint64]absNode{}, nmsgs: map[uint64]int{}, unsent: map[uint64][]*unsentReq{}}
 	t.Lines = append(t.Lines, fmt.Sprintf("sp init %s -", tokIDs(c.O.Voters)))
 	return t
 }
@@ -170,6 +179,7 @@ func (t *SpecTracer) afterOp(n *Node, op string, msg *pb.Message) {
 	if post.term > pre.term {
 		if post.role == "C" && post.vote == id && post.term == pre.term+1 {
 			t.emit("campaign %d", id)
+			t.unsent[id] = append(t.unsent[id], &unsentReq{pos: len(t.Lines), term: post.term})
 		} else {
 			t.emit("updateTerm %d %d", id, post.term)
 			pre.role, pre.vote = "F", 0
@@ -313,11 +323,31 @@ func (t *SpecTracer) onPersist(n *Node) {
 
 func (t *SpecTracer) onCrash(n *Node) {
 	t.emit("crash %d", n.ID)
+	delete(t.unsent, n.ID)
 }
 
 // onSend: a message is handed to the network (promises are checked here).
 func (t *SpecTracer) onSend(from *Node, m *pb.Message) {
 	switch m.GetType() {
+	case pb.MsgVote:
+		// the request of the candidacy of that term leaves the node (a node may have campaigned again before its
+		// earlier requests were handed out: every term keeps its own record)
+		for k, u := range t.unsent[from.ID] {
+			if u.term != m.GetTerm() {
+				continue
+			}
+			line := fmt.Sprintf("sp a sendReqVote %d", from.ID)
+			t.Lines = append(t.Lines[:u.pos], append([]string{line}, t.Lines[u.pos:]...)...)
+			for _, us := range t.unsent {
+				for _, o := range us {
+					if o != u && o.pos >= u.pos {
+						o.pos++
+					}
+				}
+			}
+			t.unsent[from.ID] = append(t.unsent[from.ID][:k:k], t.unsent[from.ID][k+1:]...)
+			break
+		}
 	case pb.MsgVoteResp:
 		if !m.GetReject() {
 			t.emit("sendVote %d %d %d", from.ID, m.GetTerm(), m.GetTo())
